@@ -178,27 +178,28 @@ Definition mono_op (n : nat) (m : mono) : mat Zi :=
   mscale ZK (fst m) (mprod n (map (sym_op n) (snd m))).
 
 (* ------------------------------------------------------------------ application route *)
-(* SymbolicTerm.__call__: the factor gates are applied one after another in list order, then
-   the coefficient; the state is a column (state vector) or a square matrix (density matrix:
-   apply_gate_half_density_matrix multiplies from the left) *)
-Definition apply_term (n : nat) (t : sterm) (S : mat Zi) : mat Zi :=
+(* HISTORICAL (before the repair of SymbolicTerm.__call__): the factor gates were applied one after
+   another in list order, i.e. the operator product in reverse order *)
+Definition apply_term_prefix (n : nat) (t : sterm) (S : mat Zi) : mat Zi :=
   mscale ZK (t_coef t) (fold_left (fun s f => mmul ZK (sym_op n f) s) (t_factors t) S).
 
 Definition zi_is0 (c : Zi) : bool := zi_eqb c zi0.
 
-(* SymbolicHamiltonian.apply_gates *)
-Definition apply_gates (n : nat) (tc : list sterm * Zi) (S : mat Zi) : mat Zi :=
-  let total := msum ZK (map (fun t => apply_term n t S) (fst tc)) in
+Definition apply_gates_prefix (n : nat) (tc : list sterm * Zi) (S : mat Zi) : mat Zi :=
+  let total := msum ZK (map (fun t => apply_term_prefix n t S) (fst tc)) in
   if zi_is0 (snd tc) then total else madd ZK total (mscale ZK (snd tc) S).
 
 (* what the application should be *)
 Definition apply_spec (n : nat) (f : form) (S : mat Zi) : mat Zi := mmul ZK (denote n f) S.
 
-(* the same with the factors applied right-to-left (the proposed repair) *)
-Definition apply_term_fixed (n : nat) (t : sterm) (S : mat Zi) : mat Zi :=
+(* SymbolicTerm.__call__ : `for factor in reversed(self.factors)`: the last factor acts first, then the
+   coefficient; the state is a column (state vector) or a square matrix (density matrix:
+   apply_gate_half_density_matrix multiplies from the left) *)
+Definition apply_term (n : nat) (t : sterm) (S : mat Zi) : mat Zi :=
   mscale ZK (t_coef t) (fold_right (fun f s => mmul ZK (sym_op n f) s) S (t_factors t)).
-Definition apply_gates_fixed (n : nat) (tc : list sterm * Zi) (S : mat Zi) : mat Zi :=
-  let total := msum ZK (map (fun t => apply_term_fixed n t S) (fst tc)) in
+(* SymbolicHamiltonian.apply_gates *)
+Definition apply_gates (n : nat) (tc : list sterm * Zi) (S : mat Zi) : mat Zi :=
+  let total := msum ZK (map (fun t => apply_term n t S) (fst tc)) in
   if zi_is0 (snd tc) then total else madd ZK total (mscale ZK (snd tc) S).
 
 Fixpoint memn (x : nat) (l : list nat) : bool :=
@@ -223,6 +224,8 @@ Definition expect_dm (hrho : mat Zi) : Z := fst (mtrace ZK hrho).
 
 Definition sym_expect_state n tc psi := expect_state (apply_gates n tc psi) psi.
 Definition sym_expect_dm n tc rho := expect_dm (apply_gates n tc rho).
+Definition sym_expect_state_prefix n tc psi := expect_state (apply_gates_prefix n tc psi) psi.   (* historical *)
+Definition sym_expect_dm_prefix n tc rho := expect_dm (apply_gates_prefix n tc rho).
 Definition dense_expect_state (H psi : mat Zi) := expect_state (mmul ZK H psi) psi.
 Definition dense_expect_dm (H rho : mat Zi) := expect_dm (mmul ZK H rho).
 
@@ -273,9 +276,8 @@ Definition key_bit (key : list bool) (qmap : list nat) (q : nat) : option bool :
 Definition count_true (l : list bool) : nat := length (filter (fun b => b) l).
 Definition sgn (odd : bool) : Z := if odd then (-1)%Z else 1%Z.
 
-(* SymbolicHamiltonian.expectation_from_samples: returns (numerator, total): value = numerator/total.
-   None = the real code raises (non-Z factor, qubit missing from the map, key too short) *)
-Definition sym_samples (tc : list sterm * Zi) (fr : freqs) (qmap : list nat) : option (Z * Z) :=
+(* HISTORICAL (before the repair): the SET of target qubits of a term was used *)
+Definition sym_samples_prefix (tc : list sterm * Zi) (fr : freqs) (qmap : list nat) : option (Z * Z) :=
   if negb (forallb (fun t => forallb (fun f => pauli_eqb (fst f) PZ) (t_factors t)) (fst tc)) then None
   else
     let per_term t :=
@@ -286,12 +288,10 @@ Definition sym_samples (tc : list sterm * Zi) (fr : freqs) (qmap : list nat) : o
     option_map (fun l => ((fold_right Z.add 0%Z l + fst (snd tc) * ftotal fr)%Z, ftotal fr))
                (opt_all (map per_term (fst tc))).
 
-(* the same with the parity of the number of factors per qubit (proposed repair) *)
-Definition odd_targets (t : sterm) : list nat :=
-  filter (fun q => Nat.odd (length (facs_on q t))) (t_targets t).
-
-(* proposed repair of SymbolicHamiltonian.expectation_from_samples: count the factors, not the set *)
-Definition sym_samples_fixed (tc : list sterm * Zi) (fr : freqs) (qmap : list nat) : option (Z * Z) :=
+(* SymbolicHamiltonian.expectation_from_samples: returns (numerator, total): value = numerator/total.
+   qubits = [factor.target_qubit for factor in term.factors ...] (a list: every factor counts).
+   None = the real code raises (non-Z factor, qubit missing from the map, key too short) *)
+Definition sym_samples (tc : list sterm * Zi) (fr : freqs) (qmap : list nat) : option (Z * Z) :=
   if negb (forallb (fun t => forallb (fun f => pauli_eqb (fst f) PZ) (t_factors t)) (fst tc)) then None
   else
     let per_term t :=
@@ -306,37 +306,40 @@ Definition is_diag (M : mat Zi) : bool :=
   forallb (fun i => forallb (fun j => (i =? j) || zi_is0 (mget ZK M i j)) (seq 0 (length M)))
           (seq 0 (length M)).
 
-(* Hamiltonian.expectation_from_samples on a dense matrix:
-   index += int(k[qubit_map.index(i)]) * 2 ** (size - 1 - i)  for i in qubit_map *)
-Definition dense_sample_index (key : list bool) (qmap : list nat) : option nat :=
+(* HISTORICAL (before the repair): size = len(qubit_map) *)
+Definition dense_sample_index_prefix (key : list bool) (qmap : list nat) : option nat :=
   let size := length qmap in
   option_map (fold_right Nat.add 0)
     (opt_all (map (fun i => if size <=? i then None    (* 2 ** negative: float index -> IndexError *)
                             else option_map (fun b : bool => if b then 2 ^ (size - 1 - i) else 0)
                                             (key_bit key qmap i)) qmap)).
-Definition dense_samples (M : mat Zi) (fr : freqs) (qmap : list nat) : option (Z * Z) :=
+Definition dense_samples_prefix (M : mat Zi) (fr : freqs) (qmap : list nat) : option (Z * Z) :=
   if negb (is_diag M) then None
   else option_map (fun l => (fold_right Z.add 0%Z l, ftotal fr))
     (opt_all (map (fun kc : list bool * Z =>
-        match dense_sample_index (fst kc) qmap with
+        match dense_sample_index_prefix (fst kc) qmap with
         | Some ix => if ix <? length M then Some (fst (mget ZK M ix ix) * snd kc)%Z else None
         | None => None
         end) fr)).
 
-(* proposed repair of Hamiltonian.expectation_from_samples: weights 2 ** (nqubits - 1 - i) *)
-Definition dense_sample_index_fixed (n : nat) (key : list bool) (qmap : list nat) : option nat :=
+(* Hamiltonian.expectation_from_samples on a dense matrix:  size = int(np.log2(len(obs)));
+   index += int(k[qubit_map.index(i)]) * 2 ** (size - 1 - i)  for i in qubit_map *)
+Definition dense_sample_index (n : nat) (key : list bool) (qmap : list nat) : option nat :=
   option_map (fold_right Nat.add 0)
     (opt_all (map (fun i => if n <=? i then None
                             else option_map (fun b : bool => if b then 2 ^ (n - 1 - i) else 0)
                                             (key_bit key qmap i)) qmap)).
-Definition dense_samples_fixed (n : nat) (M : mat Zi) (fr : freqs) (qmap : list nat) : option (Z * Z) :=
+Definition dense_samples_n (n : nat) (M : mat Zi) (fr : freqs) (qmap : list nat) : option (Z * Z) :=
   if negb (is_diag M) then None
   else option_map (fun l => (fold_right Z.add 0%Z l, ftotal fr))
     (opt_all (map (fun kc : list bool * Z =>
-        match dense_sample_index_fixed n (fst kc) qmap with
+        match dense_sample_index n (fst kc) qmap with
         | Some ix => if ix <? length M then Some (fst (mget ZK M ix ix) * snd kc)%Z else None
         | None => None
         end) fr)).
+
+Definition dense_samples (M : mat Zi) (fr : freqs) (qmap : list nat) : option (Z * Z) :=
+  dense_samples_n (Nat.log2 (length M)) M fr qmap.
 
 (* the basis state a key denotes under a qubit map: qubit q carries key[qmap.index(q)];
    qubits outside the map carry 0 *)
